@@ -402,11 +402,11 @@ ValueLayout(fam, n) ==
     CASE fam \in {"u64", "with_u64", "uninit_u64"}   -> [sz |-> 8, al |-> 8]
       [] fam = "default_u32"                          -> [sz |-> 4, al |-> 4]
       [] fam \in {"copy_u8", "fill_with_u8", "str"}   -> [sz |-> n, al |-> 1]
-      [] fam = "cstr_from_str"                        -> [sz |-> n + 1, al |-> 1]
-      [] fam = "clone_u16"                            -> [sz |-> 2 * n, al |-> 2]
+      [] fam \in {"cstr_from_str", "cstr"}            -> [sz |-> n + 1, al |-> 1]
+      [] fam \in {"clone_u16", "uninit_for_u16"}      -> [sz |-> 2 * n, al |-> 2]
       [] fam \in {"move_u32", "uninit_slice_u32"}     -> [sz |-> 4 * n, al |-> 4]
       [] fam \in {"fill_u64", "iter_exact_u64"}       -> [sz |-> 8 * n, al |-> 8]
-ValueFams == {"u64", "with_u64", "uninit_u64", "default_u32", "copy_u8", "fill_with_u8", "str", "cstr_from_str", "clone_u16",
+ValueFams == {"u64", "with_u64", "uninit_u64", "default_u32", "copy_u8", "fill_with_u8", "str", "cstr_from_str", "cstr", "clone_u16", "uninit_for_u16",
               "move_u32", "uninit_slice_u32", "fill_u64", "iter_exact_u64"}
 AllocValue(fam, n, fail) == n >= 1 /\ AllocG(ValueLayout(fam, n), FALSE, fail, fam, n)
 
